@@ -58,6 +58,7 @@ def safe_execute(check, case, wall_s=120):
 
 
 _CHECK = None
+_STATES = set()
 
 
 def _worker(args):
@@ -69,6 +70,10 @@ def _worker(args):
         r["index"] = i
         r["wall"] = time.time() - t
         r.pop("taken", None)
+        r.pop("world", None)
+        # abstract states travel as 64-bit hashes (only their number is reported)
+        if r.get("states"):
+            r["states"] = [h64(repr(x)) for x in r["states"]]
         # keep the case only where the parent needs it
         if r.get("violations") or r.get("harness_error"):
             r["case"] = case
@@ -204,35 +209,37 @@ def replay_file(check, path):
 def run_batch(check, tier, seed, workers=None, budget_s=None, n_cases=None, verbose=True):
     global _CHECK
     _CHECK = check
+    _STATES.clear()
     t0 = time.time()
     workers = workers or int(os.environ.get("VERIF_WORKERS", "0")) or min(16, os.cpu_count() or 4)
     budget_s = budget_s or float(os.environ.get("VERIF_BUDGET_S", "0")) or check.budget[tier]
-    cases = list(check.cases(tier, seed))
+    import itertools
+    total = check.ncases[tier] if hasattr(check, "ncases") else None
+    gen = check.cases(tier, seed)
     if n_cases:
-        cases = cases[:n_cases]
+        gen = itertools.islice(gen, n_cases)
+        total = min(total, n_cases) if total else n_cases
     per_run_wall = getattr(check, "per_run_wall_s", 120)
-    chunk = getattr(check, "chunk", None) or max(1, min(8, len(cases) // (workers * 4) or 1))
-    chunks = [cases[i:i + chunk] for i in range(0, len(cases), chunk)]
+    chunk = getattr(check, "chunk", None) or max(1, min(8, (total or 64) // (workers * 4) or 1))
     results = []
     harness_errors = []
     ctx = multiprocessing.get_context("fork")
-    skipped = 0
+    submitted = 0
+    exhausted = False
     with ProcessPoolExecutor(max_workers=workers, mp_context=ctx) as ex:
-        futs = {}
-        it = iter(chunks)
         pending = set()
 
         def submit_more():
-            nonlocal skipped
-            while len(pending) < workers * 2:
+            nonlocal submitted, exhausted
+            while len(pending) < workers * 2 and not exhausted:
                 if time.time() - t0 > budget_s:
-                    rest = sum(len(c) for c in it)
-                    skipped += rest
+                    exhausted = True
                     return
-                try:
-                    ch = next(it)
-                except StopIteration:
+                ch = list(itertools.islice(gen, chunk))      # cases are generated lazily: thorough tiers are large
+                if not ch:
+                    exhausted = True
                     return
+                submitted += len(ch)
                 f = ex.submit(_worker, ([i for i, _ in ch], [c for _, c in ch], per_run_wall))
                 pending.add(f)
         submit_more()
@@ -240,13 +247,18 @@ def run_batch(check, tier, seed, workers=None, budget_s=None, n_cases=None, verb
             done = next(as_completed(pending, timeout=per_run_wall * chunk + 120))
             pending.discard(done)
             try:
-                results.extend(done.result())
+                for r in done.result():
+                    _STATES.update(r.pop("states", ()) or ())
+                    if len(results) >= 12 and not r.get("violations"):
+                        r.pop("sample", None)         # a few samples are enough; long batches stay small in memory
+                    results.append(r)
             except BrokenProcessPool as e:
                 harness_errors.append("worker died: %s" % e)
                 break
             except Exception as e:      # noqa
                 harness_errors.append("worker error: %s" % e)
             submit_more()
+    skipped = max(0, (total or submitted) - submitted)
     results.sort(key=lambda r: r["index"])
     return finish(check, tier, seed, results, harness_errors, skipped, t0, verbose)
 
@@ -347,6 +359,7 @@ def write_evidence(check, tier, seed, results, wall, skipped, known_seen, n_new,
     states = set()
     injections = collections.Counter()
     maxima = {}
+    states.update(_STATES)
     for r in ok:
         for k_, v_ in r.get("maxima", {}).items():
             if v_ > maxima.get(k_, float("-inf")):
@@ -354,7 +367,7 @@ def write_evidence(check, tier, seed, results, wall, skipped, known_seen, n_new,
         faults.update(r.get("faults", {}))
         probes.update(r.get("probes", {}))
         injections.update(r.get("injections", {}))
-        states.update(map(str, r.get("states", ())))
+        states.update(r.get("states", ()) or ())
     samples = [r["sample"] for r in ok if r.get("sample")][: getattr(check, "n_samples", 4)]
     if not samples:
         samples = [{"note": "no run produced a sample"}]
